@@ -745,6 +745,11 @@ impl Model {
                         v.push(Viol { prop: "C11", what: "reward accepted from an account that is not the reward collector's hook account".into() });
                     }
                 }
+                // the other direction: a reward from the rightful collector is processed whenever LST exists
+                // (contract running, fee not above the reward, no injected host fault)
+                if !res.ok && rightful && !pre.stopped && pre.l > 0 && paid_s > 0 && matches!(fee, Some(f) if f <= paid_s) && pre_w.fault_submit.is_none() && pre_w.fault_nodata.is_none() && !res.err.contains("sim:") {
+                    v.push(Viol { prop: "C11", what: format!("reward of {paid_s} from the reward collector refused although LST exists ({} LST, {} queued in the pending batch): {}", pre.l, pre.pending.total, res.err) });
+                }
                 self.seen("C11", format!("reward|{}|{}|{}|{}|{}|{}", rate.min(100_001), pre.treasury().is_some(), res.ok, pre.l == 0, mag(paid_s), fee.map(|f| (f == 0) as u8).unwrap_or(2)));
             }
             if is_feew {
